@@ -11,11 +11,16 @@ use dsverif::*;
 use duckscript::runner;
 use duckscript::types::command::{Command, CommandInvocationContext, CommandResult};
 use duckscript::types::runtime::StateValue;
+use duckscript::types::env::Env;
 use std::cell::RefCell;
 use std::collections::HashMap;
+use std::sync::atomic::{AtomicBool, AtomicU64, Ordering};
+use std::sync::Arc;
+use std::time::{Duration, Instant};
 
 thread_local! {
     static TRACE: RefCell<Vec<Vec<String>>> = RefCell::new(vec![]);
+    static HANGS: RefCell<u32> = RefCell::new(0);
 }
 
 #[derive(Clone)]
@@ -126,7 +131,22 @@ fn end_table(state: &HashMap<String, StateValue>) -> String {
 }
 
 fn main() {
-    serve(|f| match f[0] {
+    // watchdog: a script that runs longer than 3 s is halted and reported as HANG
+    let halt = Arc::new(AtomicBool::new(false));
+    let deadline = Arc::new(AtomicU64::new(0));
+    let t0 = Instant::now();
+    {
+        let (halt, deadline) = (halt.clone(), deadline.clone());
+        std::thread::spawn(move || loop {
+            std::thread::sleep(Duration::from_millis(25));
+            let d = deadline.load(Ordering::SeqCst);
+            if d != 0 && t0.elapsed().as_millis() as u64 > d {
+                halt.store(true, Ordering::SeqCst);
+            }
+        });
+    }
+    let (halt, deadline) = (std::panic::AssertUnwindSafe(halt), std::panic::AssertUnwindSafe(deadline));
+    serve(move |f| match f[0] {
         "R" => {
             let lines = dec_list(f[1]);
             let init = dec_list(f[2]);
@@ -140,7 +160,18 @@ fn main() {
                 }
             }
             TRACE.with(|t| t.borrow_mut().clear());
-            match runner::run_script(&script, context, None) {
+            halt.store(false, Ordering::SeqCst);
+            // after three hangs the fuse gets short, so that a hanging mutant does not stall the check
+            let fuse = if HANGS.with(|h| *h.borrow()) >= 3 { 150 } else { 3000 };
+            deadline.store(t0.elapsed().as_millis() as u64 + fuse, Ordering::SeqCst);
+            let env = Env::new(None, None, Some(halt.0.clone()));
+            let result = runner::run_script(&script, context, Some(env));
+            deadline.store(0, Ordering::SeqCst);
+            if halt.load(Ordering::SeqCst) {
+                HANGS.with(|h| *h.borrow_mut() += 1);
+                return "HANG".to_string();
+            }
+            match result {
                 Ok(ctx) => {
                     if let Some(l) = ctx.variables.get("__first_err_line") {
                         // the on_error command receives the 1-based line of the meta info
